@@ -45,7 +45,7 @@ CLAIMED = {
              ref="DESIGN.md 4 C19"),
  "C03": dict(technique="Kani contracts: per-backend leaf contracts of every vector operation (C12/C13) + per-backend wiring of every dispatching algorithm against ONE backend-independent specification, driven through the real dispatch!/dispatch_light128!/dispatch_light256! arms over a CPUID model, plus the no_simd build",
              text="ChaCha narrow+wide, BLAKE-256/512 compress+finalize and JH F8 are each proved equal to a single backend-independent specification on SSE2, SSSE3, SSE4.1, AVX(=SSE4.1 types), AVX2 and the portable backend; equal to the same function implies bit-identical pairwise; panics (unimplemented!) are failed obligations.",
-             note="AVX vs SSE4.1 differ only in #[target_feature] code generation (assumed equal). The no-std compile-time dispatch selects the same fn_impl::<M> instantiations by cfg!(target_feature) constants: covered by argument, not run (DESIGN.md 4 C03). quick: leaf ops of the vector types the algorithms use + wiring at the extreme CPU levels; thorough: everything.",
+             note="AVX vs SSE4.1 differ only in #[target_feature] code generation (assumed equal). The no-std compile-time dispatch of c2-chacha (cfg!(target_feature) arms) is run in the thorough tier: one harness unit per arm, built with --no-default-features and -C target-feature (DESIGN.md 11.3). quick: leaf ops of the vector types the algorithms use + wiring at the extreme CPU levels; thorough: everything.",
              ref="DESIGN.md 4 C03"),
  "C16": dict(technique="Kani memory-safety obligations (pointer/bounds/memcpy-region checks) inside contract harnesses that hand each byte-slice consumer a buffer of exactly the contract size; aligned-access intrinsics stubbed as must-be-unreachable",
              text="Reads stay inside the input and writes inside the output for vector byte load/store on every backend (exact 16/32/64-byte buffers), ChaCha apply shapes, hash update/finalize shapes, BLAKE/JH compression on exact-size blocks (JH f8 takes a raw pointer), Threefish block I/O; results are functions of slice contents only (CBMC objects have no address). No aligned-access intrinsic is reachable from these entry points.",
